@@ -27,7 +27,11 @@ from ..model import undo_id
 
 ID = 'C13'
 LEVEL = 'exploration'
-RULE = ('one run = one seeded program of two connections on a blob-enabled '
+RULE = ('kinds: FileStorage with blob_dir; BlobStorage proxy over '
+        'MappingStorage and over FileStorage (undo, pack); a blob-enabled '
+        'FileStorage closed, reopened read-only and wrapped in a DemoStorage '
+        'in mid-program (base must stay byte-identical).  '
+        'one run = one seeded program of two connections on a blob-enabled '
         'FileStorage (Data.fs on the simulated disk, blob directory on a '
         'scratch tmpfs reached through the fault-injecting os/open proxy) '
         'or on BlobStorage over MappingStorage: create blob, rewrite (w), '
@@ -52,6 +56,10 @@ ASSUMPTIONS = [
     'images of the blob directory',
     'running as root chmod protects nothing: "never modified in place" is '
     'decided by content hashes per (oid, tid) file',
+    'a revision that a pack left in the data file only as the target of a '
+    'later back pointer (not loadable any more) need not keep its file; '
+    'the BlobStorage proxy\'s file for the un-creation written by its undo '
+    'of a creation is accepted (by design, property silent)',
 ]
 SHRINK = ['ops']
 _scratch_n = [0]
@@ -59,15 +67,17 @@ _scratch_n = [0]
 
 def gen(seed, tier):
     r = random.Random(seed)
-    kind = r.choice(('file', 'file', 'file', 'file', 'mapblob', 'demoblob'))
+    kind = r.choice(('file', 'file', 'file', 'file', 'mapblob', 'demoblob',
+                     'proxy'))
     ops = []
     for _ in range(r.randint(3, 20)):
         x = r.random()
         if x < 0.16:
             ops.append(['create', r.randrange(3)])
         elif x < 0.40:
-            ops.append(['write', r.randrange(3), r.choice(('w', 'a', 'r+',
-                                                           'consume'))])
+            ops.append(['write', r.randrange(3), r.choice(
+                ('w', 'w', 'a', 'a', 'r+', 'r+', 'consume', 'consume',
+                 'consume-fail'))])
         elif x < 0.46:
             ops.append(['other'])
         elif x < 0.52:
@@ -196,6 +206,12 @@ class M:
             from ZODB.FileStorage import FileStorage
             self.st = FileStorage(dbh.PATH, blob_dir=self.blob_dir,
                                   **case['st_opts'])
+        elif self.kind == 'proxy':
+            # the BlobStorage proxy over a storage with undo
+            from ZODB.blob import BlobStorage
+            from ZODB.FileStorage import FileStorage
+            self.st = BlobStorage(self.blob_dir, FileStorage(
+                dbh.PATH, **case['st_opts']))
         else:
             from ZODB.blob import BlobStorage
             from ZODB.MappingStorage import MappingStorage
@@ -348,6 +364,29 @@ class M:
             have.update(blob_files(bd))
         extra = sorted(set(have) - set(want))
         missing = sorted(set(want) - set(have))
+        if missing and self.kind in ('file', 'proxy'):
+            # a revision that is still in the data file only as the target
+            # of a later back pointer cannot be loaded by anyone any more
+            # (C07's "shadow" records: pack cut its prev chain): whether its
+            # file is still there is not promised -- the BlobStorage proxy
+            # decides by loadSerial, FileStorage drops it when the record
+            # shares its transaction (and so its file) with a dropped one
+            from ZODB.POSException import POSKeyError
+            keep = []
+            for oid, tid in missing:
+                try:
+                    self.st.loadSerial(oid, tid)
+                    keep.append((oid, tid))
+                except POSKeyError:
+                    pass
+            missing = keep
+        if extra and self.kind == 'proxy':
+            # the proxy's undo of a creation deliberately writes a file
+            # for the un-creation ("in case a user wishes to undo this
+            # undo"): the property is silent on it
+            unc = {(r.oid, t.tid) for t in self.log.txns for r in t.recs
+                   if r.kind == UNCREATE}
+            extra = [x for x in extra if x not in unc]
         if extra:
             self.flag('blob-file-without-record', '%s: blob files without a '
                       'committed blob record: %r' % (where, [
@@ -393,7 +432,26 @@ class M:
 
     def read_blob(self, b):
         with b.open('r') as f:
-            return f.read()
+            got = f.read()
+        # the committed file itself, where the blob has no uncommitted data
+        if b._p_blob_uncommitted is None and b._p_oid is not None \
+                and b._p_serial != b'\0' * 8 and b._p_blob_committed \
+                and not b._p_blob_committed.endswith('.spb') \
+                and not b._p_changed:
+            try:
+                with b.open('c') as f:
+                    c1 = f.read()
+                with open(b.committed(), 'rb') as f:
+                    c2 = f.read()
+            except Exception as e:      # noqa: B902
+                self.flag('blob-unreadable', "open('c') / committed() "
+                          'raised %s: %s' % (type(e).__name__, str(e)[:60]))
+            else:
+                if c1 != got or c2 != got:
+                    self.flag('blob-read', "open('c') / committed() give "
+                              '%r... / %r..., open() gives %r...'
+                              % (c1[:20], c2[:20], got[:20]))
+        return got
 
     def check_reads(self, cl, where, committed_only):
         root = cl.root()
@@ -458,6 +516,39 @@ class M:
                 f.seek(pos)
                 f.write(d[:5])
             new = old[:pos] + d[:5] + old[pos + 5:]
+        elif mode == 'consume-fail':
+            # consumeFile whose rename and copy fall-back both fail: the
+            # blob keeps what it had
+            path = self.scratch + '/systmp/consume-%d' % self.counter
+            with open(path, 'wb') as f:
+                f.write(d)
+            fs = self.sim.fs
+            plan = fs.arm(simfs.FaultPlan([
+                {'at': self.counter % 2, 'kind': 'eio',
+                 'ops': ('real.rename',)},
+                {'at': 0, 'kind': 'enospc', 'span': None,
+                 'ops': ('real.open',)}]))
+            try:
+                b.consumeFile(path)
+                new = d
+            except OSError:
+                new = old
+                self.trace.append('consume-failed')
+            finally:
+                fs.disarm()
+            if plan.fired:
+                self.sim.faults_fired['blob:consume'] += 1
+            if os.path.exists(path):
+                os.remove(path)
+            try:
+                got = self.read_blob(b)
+            except Exception as e:      # noqa: B902
+                got = '%s: %s' % (type(e).__name__, e)
+            if got != new:
+                self.flag('blob-read', 'after a %s consumeFile the blob '
+                          'reads %r..., expected %r...'
+                          % ('failed' if new is old else 'successful',
+                             got[:24], new[:24]))
         else:
             path = self.scratch + '/systmp/consume-%d' % self.counter
             with open(path, 'wb') as f:
@@ -574,7 +665,7 @@ class M:
         self.after_step('after failed commit (%s)' % how, True)
 
     def op_undo(self, k, m=1):
-        if self.kind != 'file' or len(self.commit_log) < 2:
+        if self.kind not in ('file', 'proxy') or len(self.commit_log) < 2:
             return
         A = self.A
         A.abort()
